@@ -478,7 +478,7 @@ impl Family for Lattice {
         &["C01", "C02", "C03", "C04", "C09"]
     }
     fn rule(&self) -> &'static str {
-        "every top-context x expression-context x payload x type of the feature lattice (quick: all tops with ctx=none plus all ctxs under top=let-show; thorough: full product); a case is non-trivial when it compiled and both interpreters ran it; distinct = distinct source text"
+        "every top-context x expression-context x payload x type of the feature lattice (quick: all tops with ctx=none plus all ctxs under top=let-show; thorough: full product; every top=let-show program also with all binders spelled with 70 characters); a case is non-trivial when it compiled and both interpreters ran it; distinct = distinct source text"
     }
     fn cases(&self, tier: Tier) -> Box<dyn Iterator<Item = Value> + '_> {
         let mut v = Vec::new();
@@ -490,6 +490,11 @@ impl Family for Lattice {
                 for p in PAYLOADS {
                     for t in T6::ALL {
                         v.push(json!({"top": top, "ctx": c, "payload": p, "ty": t.tag()}));
+                        // the same program with every binder spelled with 70 characters: statements wider
+                        // than any line width the Go printer might want to break at
+                        if top == "let-show" {
+                            v.push(json!({"top": top, "ctx": c, "payload": p, "ty": t.tag(), "wide": true}));
+                        }
                     }
                 }
             }
@@ -500,11 +505,17 @@ impl Family for Lattice {
         let mut rep = Report::default();
         let ty = T6::ALL.iter().copied().find(|t| t.tag() == case["ty"].as_str().unwrap()).unwrap();
         let (topn, ctxn, pay) = (case["top"].as_str().unwrap(), case["ctx"].as_str().unwrap(), case["payload"].as_str().unwrap());
-        let Some(prog) = build(topn, ctxn, pay, ty) else {
+        let Some(mut prog) = build(topn, ctxn, pay, ty) else {
             rep.tag("inapplicable");
             return rep;
         };
-        let site = format!("top={};ctx={};payload={};ty={}", topn, ctxn, pay, ty.tag());
+        let wide = case["wide"].as_bool().unwrap_or(false);
+        if wide {
+            for (i, name) in prog.names.iter_mut().enumerate() {
+                *name = format!("{}{}w{}", name, "q".repeat(70usize.saturating_sub(name.len())), i);
+            }
+        }
+        let site = format!("top={};ctx={};payload={};ty={}{}", topn, ctxn, pay, ty.tag(), if wide { ";wide" } else { "" });
         let opts = DiffOpts {
             props_sem: &["C01", "C09"],
             ..DiffOpts::default()
